@@ -47,7 +47,13 @@ open(out, "wb").write(cloudpickle.dumps(y))
 '''
 
 RECEIVER_SRC = r'''
-import sys, json, numpy as np, cloudpickle, cubed, cubed.array_api as xp
+import sys, json, traceback
+def _fatal(exc_type, exc, tb):
+    # anything that goes wrong outside the guarded sections (e.g. the receiver's own local computation) is reported, not lost
+    print(json.dumps(dict(ok=False, exc=exc_type.__name__, msg="receiver failed outside combine/compute: " + str(exc)[:200], names_local=[], names_d=[])))
+    sys.exit(0)
+sys.excepthook = _fatal
+import numpy as np, cloudpickle, cubed, cubed.array_api as xp
 from cubed.runtime.create import create_executor
 work, p1, p2, k, use, opt = sys.argv[1], sys.argv[2], sys.argv[3], int(sys.argv[4]), sys.argv[5], sys.argv[6] == "1"
 precompute = len(sys.argv) > 7 and sys.argv[7] == "1"
